@@ -21,7 +21,8 @@ def run(ctx):
     ctx.rule('R12.2', 'Arc.phase2t: domain_lower_limit == theta for delta > 0 and theta + delta for delta < 0; t == (degs - theta)/delta; '
                       '_deg shifts by floor(limit/360)*360 (+360 when below the limit)', 2)
     ctx.rule('R19.4', 'index domain: indices select from the collection they enumerated (polyroots, Path.intersect de-duplication)', 2)
-    ctx.rule('R12.3', 'filters are closed intervals ([0,1] for parameters, [0, line_length] for the abscissa); the line solver iterates a set of roots', 3)
+    ctx.rule('R12.3', 'filters are closed intervals ([0,1] for parameters, [0, line_length] for the abscissa): a root is discarded only on paths '
+                      'that know it to be strictly outside; a repeated root is reported once', 2)
     ctx.rule('R12.4', 'pruning boxes of the subdivision are complete (cubic extrema: every interior critical point is a candidate)', 1)
     fi = mdl.func('path.Arc.phase2t')
     PSI = Rat.sym('psi')
@@ -94,23 +95,54 @@ def run(ctx):
     for q in ('polytools.polyroots', 'path.Path.intersect'):
         c19._index_domain(ctx, mdl.func(q))
 
-    # ---------------------------------------------------------------- R12.3 closed filters
+    # ---------------------------------------------------------------- R12.3 closed filters (semantic, per label path)
     fb = mdl.func('bezier.bezier_by_line_intersections')
-    closed = [n for n in ast.walk(fb.node) if isinstance(n, ast.Compare) and len(n.ops) == 2 and norm(n.left) == '0']
-    ok = bool(closed) and all(isinstance(o, ast.LtE) for n in closed for o in n.ops)
-    ctx.record('R12.3', fb.qualname, 'abscissa filter 0 <= xval <= line_length is closed', ok,
-               detail='' if ok else 'filter is %s' % [norm(n) for n in closed], where=where(fb))
-    loops = [n for n in ast.walk(fb.node) if isinstance(n, ast.For)]
-    once = any(isinstance(n.iter, ast.Call) and call_name(n.iter) == 'set' for n in loops) or \
-        any(isinstance(n.iter, ast.Name) for n in loops)
-    uses_set = any(isinstance(n.iter, ast.Call) and call_name(n.iter) == 'set' for n in loops)
-    ctx.record('R12.3', fb.qualname, 'each root is visited once (iteration over a set / de-duplicated list)', once,
-               detail='' if once else 'roots are iterated with possible repetitions', where=where(fb), sample={'set': uses_set})
+    Bz = cpoints(3, 'B')
+    Ln = cpoints(2, 'L')
+
+    def th_bl(it):
+        it.call_hooks['polytools.polyroots01'] = lambda it2, a, k: [Rat.sym('rho'), Rat.sym('rho')]     # a repeated root
+        it.call_hooks['bezier.polyroots01'] = it.call_hooks['polytools.polyroots01']
+        r = it.call(it.closure_of('bezier.bezier_by_line_intersections'), [tuple(Bz), tuple(Ln)], {})
+        # abscissa of B(rho) along the line, as the function must compute it
+        d = Ln[1] - Ln[0]
+        length = apply_fn('abs', d)
+        w = (bernstein(Bz, Rat.sym('rho')) - Ln[0]) * (length / d)
+        x = w.real()
+        return list(r), path_sign(it, x), path_sign(it, x - length), x, length
+
+    def judge_bl(v):
+        r, s0, s1, x, length = v
+        if len(r) > 1:
+            return False, 'a repeated root is reported %d times' % len(r)
+        if len(r) == 1:
+            ok = s0 <= frozenset('0+') and s1 <= frozenset('-0')
+            if not ok:
+                return False, 'a crossing is reported without knowing 0 <= abscissa <= line_length'
+            return decide_all_equal([('bezier parameter', r[0][0], Rat.sym('rho')), ('line parameter', r[0][1], x / length)])
+        strictly_out = s0 == frozenset('-') or s1 == frozenset('+')
+        return strictly_out, '' if strictly_out else 'a root is discarded although its abscissa may lie ON an end of the line (filter not closed)'
+    Obligation(ctx, 'R12.3').run(fb, 'bezier_by_line_intersections: closed abscissa filter, one report per root, parameter pairing', th_bl, judge_bl,
+                                 allowed_raises=('AssertionError', 'ValueError'))
+
     fa = mdl.func('path.Arc.intersect')
-    comps = [n for n in ast.walk(fa.node) if isinstance(n, ast.Compare) and len(n.ops) == 2 and norm(n.left) == '0' and norm(n.comparators[1]) == '1']
-    ok = len(comps) >= 2 and all(isinstance(o, ast.LtE) for n in comps for o in n.ops)
-    ctx.record('R12.3', fa.qualname, 'parameter filters 0 <= t <= 1 are closed (%d sites)' % len(comps), ok,
-               detail='' if ok else 'filters: %s' % [norm(n) for n in comps], where=where(fa))
+
+    def th_ab(it):
+        arc = sym_arc(it, 'A', True, False)
+        other = it.construct('path.QuadraticBezier', *cpoints(3, 'O'))
+        it.call_hooks['polytools.polyroots01'] = lambda it2, a, k: [Rat.sym('rho1')]
+        it.call_hooks['path.Arc.phase2t'] = lambda it2, a, k: Rat.sym('tarc')
+        r = it.call_method(arc, 'intersect', other)
+        return list(r), path_sign(it, Rat.sym('rho1')), path_sign(it, Rat.sym('rho1') - 1), path_sign(it, Rat.sym('tarc')), path_sign(it, Rat.sym('tarc') - 1)
+
+    def judge_ab(v):
+        r, a0, a1, b0, b1 = v
+        if r:
+            return True, ''
+        out = a0 == frozenset('-') or a1 == frozenset('+') or b0 == frozenset('-') or b1 == frozenset('+')
+        return out, '' if out else 'a root is discarded although both parameters may lie on the closed interval [0,1]'
+    Obligation(ctx, 'R12.3').run(fa, 'Arc.intersect(Bezier): parameters are only discarded when strictly outside [0,1]', th_ab, judge_ab,
+                                 allowed_raises=('AssertionError',), opts=arc_opts(mdl))
 
     # ---------------------------------------------------------------- R12.4
     c08.cubic_minmax(ctx, 'R12.4')
